@@ -119,8 +119,11 @@ def run(ctx: Ctx):
     # reconnecting peer is not served "as on a fresh node"
     closed_connections_are_removed(ctx, "C14-R5")
     # ... and the I/O loop only learns about a closed connection through its wake-up
-    from .common_node import wakeup_tokens_all_handled
+    from .common_node import wakeup_tokens_all_handled, waiting_table_keys
     wakeup_tokens_all_handled(ctx, "C14-R6")
+    # a routing record of a lost connection must not be inherited by the peer's next
+    # connection ("answered exactly as on a fresh node")
+    waiting_table_keys(ctx, "C14-R7")
 
 
 def _origin_tag(chain: list[str]) -> str:
